@@ -493,6 +493,8 @@ func init() {
 			{Name: "PATH-BLOCKSEEK", What: "(*block).seek positions the buffer on every path and records the in-block offset on the success edge only (added after a blind second seed round)", Floor: 2, Run: ruleBlockSeek},
 			{Name: "CUR-SEEKOFF", What: "countReader.seek records the new offset only after the underlying Seek succeeded (added after a blind second seed round)", Floor: 1, Run: ruleSeekOff},
 			{Name: "BASE-DROPS-DATA", What: "a block given a new base has no data until a read into it succeeded (setBase clears the buffer; hasData tests it)", Floor: 2, Run: ruleBaseDropsData},
+			{Name: "BIT-BSIZE", What: "expectedMemberSize, from which the next block's offset is computed, is the inverse of the writer's BSIZE for every member size up to 0x10000 (shared with C01/C08; under C02 since seventh-round seed C02-h: the +1 done in sixteen bits makes the largest legal member unreadable and unseekable)", Floor: 2, Run: ruleBSize},
+			{Name: "WIDEN-FIRST", What: "package bgzf: a size taken from a member header is widened before it enters arithmetic (shared with C11)", Floor: 1, Run: ruleWidenFirst([]string{"bgzf"}, "bgzf", 5)},
 		}, readerRules("R1", "R2", "R3", "R4", "R5", "R6")...),
 		Explanation: "The bookkeeping that LastChunk and Seek rest on, decided on every path: where lastChunk.Begin/End are taken relative to block changes and consumption (PATH-LASTCHUNK), that Seek updates lastChunk only on success and clears the sticky error (PATH-SEEK), that the per-block offset advances by exactly what was consumed (CUR-BLOCK); and R1–R6 for \"every call returns\" under every read-ahead schedule (head token, decompressor wait group, hand-offs between Seek and the read-ahead goroutine).",
 		NotDecided:  "the numerical model (which bytes sit at which logical position), Blocked-mode end-of-block arithmetic, equality of replayed bytes.",
